@@ -45,6 +45,18 @@ _EXPRS = [
     ('np.array(a[..., 0], dtype=bool)', (2, 3, 1), None),
     ('np.logical_and(a[..., 0] > 0, b > 0)', (3, 2, 1), (3, 2)),
     ('~(a > 0)', (3, 2), None),
+    # closeness predicates with their default tolerances (rtol 1e-5 relative to the SECOND argument, atol 1e-8)
+    ('np.isclose(a, b)', (3, 2), (3, 2)),
+    ('np.isclose(a * 1e-9, 0)', (3, 2), None),
+    ('np.isclose(a + b * 1e-6, a, atol=0)', (3, 2), (3, 2)),
+    ('np.array([np.allclose(a * 1e-9, 0), np.allclose(a, 0), np.allclose(a + b * 1e-7, a), np.allclose(a, a[0], atol=0), np.allclose(a * 0 + 3, 3 + 2e-5)]) * 1.0', (3, 2), (3, 2)),
+    # integer-typed arrays: true division gives floats, sums stay exact, products with floats are floats
+    ('a.astype(int) / 2', (3, 2), None),
+    ('a.astype(int) / (b.astype(int)[1] * 2 + 1)', (3, 2), (3,)),
+    ('np.sum(a.astype(int), axis=0) * 0.5', (3, 2), None),
+    ('np.cumsum(a.astype(int), axis=0)[:-1] / 4', (4, 2), None),
+    ('a.astype(int) * b', (3, 2), (2,)),
+    ('np.zeros_like(a.astype(int), dtype=np.result_type(a.astype(int).dtype, np.float32)) + 0.5', (3, 2), None),
 ]
 for _k in (-5, -2, -1, 0, 1, 2, 3, 4, 7):
     for _ax in ((0, 1), (1, 0), (0, 2), (2, 1)):
@@ -69,6 +81,11 @@ _STORES = [
     ('t = a / 2\nt[1:] += np.cumsum(a, axis=0)[:-1]\nr = t', (4, 2), None),
     ('t = a.copy()\nw = t[..., 0]\nw[0] = 7.0\nr = t', (3, 2, 2), None),
     ('t = a.copy()\nt *= b\nr = t', (3, 2, 2), (3, 2, 1)),
+    ('t = a * 1e-8\nt[np.isclose(t, 0)] = 0\nr = t * 1e8', (3, 2, 2), None),
+    ('t = a.copy()\nt[a > b] = 7.5\nr = t', (3, 2), (3, 2)),
+    # stores into integer arrays truncate towards zero
+    ('t = a.astype(int)\nt[0] = b[0]\nr = t', (3, 2), (3, 2)),
+    ('t = (a.astype(int) / 2)\nt[1:] += np.cumsum(a.astype(int), axis=0)[:-1]\nr = t', (4, 2), None),
 ]
 
 
@@ -125,6 +142,8 @@ def run(seed=0):
                     bad.append(f'{text}: model {got.tolist()} vs numpy {want.tolist()}')
                 elif (want.dtype == bool) != (got.dtype == bool):
                     bad.append(f'{text}: dtype class differs: model {got.dtype} vs numpy {want.dtype}')
+                elif isinstance(paths[0].outcome[1], NDArr) and {'b': 'bool', 'i': 'int', 'u': 'int', 'f': 'float', 'c': 'complex'}[want.dtype.kind] != paths[0].outcome[1].dtype:
+                    bad.append(f'{text}: dtype kind differs: model {paths[0].outcome[1].dtype} vs numpy {want.dtype}')
             except Unsupported as e:
                 bad.append(f'{text}: model does not support its own probe: {e}')
             except Exception as e:
